@@ -195,13 +195,13 @@ package frame
 //@   requires live(f) && s != nil
 //@   modifies f.data[1:16], f.data[f.messageIndex+2 : f.appendixIndex], any("F|state."), any("F|sync/atomic.Uint32")
 //@   callsite ed25519.Sign signed-range [C02]: base(arg1) == base(f.data) && off(arg1) == off(f.data) && len(arg1) == f.authIndex
-//@   callsite ed25519.Sign ttl-flags-zeroed [C02]: f.data[1] == 0 && f.data[2] == 0
+//@   callsite ed25519.Sign ttl-flags-zeroed [C02,C10]: f.data[1] == 0 && f.data[2] == 0
 //@   callsite AEAD.Seal nonce [C02]: base(arg1) == base(f.data) && off(arg1) == off(f.data) + 4 && len(arg1) == 12
 //@   callsite AEAD.Seal plaintext [C02]: base(arg2) == base(f.data) && off(arg2) == off(f.data) + f.messageIndex + 2 && len(arg2) == f.authIndex - f.messageIndex - 2
 //@   callsite AEAD.Seal in-place [C02]: base(arg0) == base(arg2) && off(arg0) == off(arg2) && len(arg0) == 0 && cap(arg0) >= len(arg2) + 16 && f.appendixIndex == f.authIndex + 16
 //@   callsite AEAD.Seal associated-data [C02]: base(arg3) == base(f.data) && off(arg3) == off(f.data) && len(arg3) == f.messageIndex + 2
-//@   callsite AEAD.Seal ttl-flags-zeroed [C02]: f.data[1] == 0 && f.data[2] == 0
-//@   ensures ttl-flags-restored [C02]: len(f.data) == old(len(f.data)) && f.data[1] == old(f.data[1]) && f.data[2] == old(f.data[2])
+//@   callsite AEAD.Seal ttl-flags-zeroed [C02,C10]: f.data[1] == 0 && f.data[2] == 0
+//@   ensures ttl-flags-restored [C02,C10]: len(f.data) == old(len(f.data)) && f.data[1] == old(f.data[1]) && f.data[2] == old(f.data[2])
 
 // unsealedBy: the session under which this frame was last authenticated (nil before / after a failed attempt)
 //@ type FrameV1
@@ -218,15 +218,15 @@ package frame
 //@   modifies f.data[1:3], f.data[f.messageIndex+2 : f.appendixIndex], any("F|state."), any("F|sync/atomic.Uint32")
 //@   callsite ed25519.Verify signed-range [C02]: base(arg1) == base(f.data) && off(arg1) == off(f.data) && len(arg1) == f.authIndex
 //@   callsite ed25519.Verify signature-slot [C02]: base(arg2) == base(f.data) && off(arg2) == off(f.data) + f.authIndex && len(arg2) == f.appendixIndex - f.authIndex
-//@   callsite ed25519.Verify ttl-flags-zeroed [C02]: f.data[1] == 0 && f.data[2] == 0
+//@   callsite ed25519.Verify ttl-flags-zeroed [C02,C10]: f.data[1] == 0 && f.data[2] == 0
 //@   callsite AEAD.Open nonce [C02]: base(arg1) == base(f.data) && off(arg1) == off(f.data) + 4 && len(arg1) == 12
 //@   callsite AEAD.Open ciphertext-and-mac [C02]: base(arg2) == base(f.data) && off(arg2) == off(f.data) + f.messageIndex + 2 && len(arg2) == f.appendixIndex - f.messageIndex - 2 && f.appendixIndex == f.authIndex + 16
 //@   callsite AEAD.Open in-place [C02]: base(arg0) == base(arg2) && off(arg0) == off(arg2) && len(arg0) == 0
 //@   callsite AEAD.Open associated-data [C02]: base(arg3) == base(f.data) && off(arg3) == off(f.data) && len(arg3) == f.messageIndex + 2
-//@   callsite AEAD.Open ttl-flags-zeroed [C02]: f.data[1] == 0 && f.data[2] == 0
+//@   callsite AEAD.Open ttl-flags-zeroed [C02,C10]: f.data[1] == 0 && f.data[2] == 0
 //@   callsite state.EncryptionSession.Check sequence-checked-after-authentication [C03]: aead_ok
 //@   callsite state.TimeSequenceHandler.Check sequence-checked-after-authentication [C03]: sig_ok
-//@   ensures ttl-flags-restored [C02]: len(f.data) == old(len(f.data)) && f.data[1] == old(f.data[1]) && f.data[2] == old(f.data[2])
+//@   ensures ttl-flags-restored [C02,C10]: len(f.data) == old(len(f.data)) && f.data[1] == old(f.data[1]) && f.data[2] == old(f.data[2])
 
 // Every byte of the sealed part (below the appendix) other than TTL and flow flags is input to the primitive:
 // signed frames: [0,authIndex) is the signed message and [authIndex,appendixIndex) the signature;
